@@ -246,6 +246,7 @@ pub fn check(problem: &PProblem, solution: &Value, opts: &OracleOptions) -> Vec<
             continue;
         }
         let findings_before_tour = f.len();
+        let mut schedule_independent: Vec<Finding> = vec![];
         let mut replay_undefined = false;
         let mut uses_unreachable_leg = false;
         // first stop: departure from the shift start
@@ -451,6 +452,15 @@ pub fn check(problem: &PProblem, solution: &Value, opts: &OracleOptions) -> Vec<
                                         }
                                         break_time += end - start;
                                         cur_time = end;
+                                        // whatever the schedule around it is: a reported break is a part of the tour, it lies between
+                                        // the moment the vehicle leaves and the moment it is back (judged after the replay filter)
+                                        let tour_end = stops.last().map_or(f64::MAX, |s| s.arrival);
+                                        if end < t0 - tol || start > tour_end + tol || (start < t0 - tol && end <= t0 + tol) {
+                                            schedule_independent.push(Finding::new(
+                                                "C03:required-break-outside-tour",
+                                                here(&format!("required break reported as [{start}, {end}], the tour runs from {t0} to {tour_end}")),
+                                            ));
+                                        }
                                     }
                                     None => f.push(Finding::new("C02:break-not-defined", here("break activity does not match a distinct break of this shift"))),
                                 }
@@ -760,6 +770,7 @@ pub fn check(problem: &PProblem, solution: &Value, opts: &OracleOptions) -> Vec<
             let tail: Vec<Finding> = f.drain(findings_before_tour..).filter(|x| !x.rule.starts_with("C03:") && !(uses_unreachable_leg && timing.contains(&x.rule.as_str()))).collect();
             f.extend(tail);
         }
+        f.append(&mut schedule_independent);
         for (i, key) in [["cost"].as_slice(), &["distance"], &["duration"], &["times", "driving"], &["times", "serving"], &["times", "waiting"], &["times", "break"], &["times", "commuting"], &["times", "parking"]].iter().enumerate() {
             sum[i] += num(key).unwrap_or(0.);
         }
